@@ -64,6 +64,7 @@ type Interp struct {
 	soaked bool
 	soakAt uint64
 	wedged bool
+	hungReset bool // the clean-up of the previous case hung: reported by the first op of the next one
 	cmaps  map[string]map[interface{}]interface{} // the caller's own attachment maps (WithAttachments arguments)
 	rv     *rendezvous
 }
@@ -81,11 +82,24 @@ func New() vh.Interp {
 
 func (it *Interp) Reset() {
 	// finish what the previous case left in flight (contexts go back to the pool, gauges are balanced) - unless an op
-	// hung: then nothing of that case is touched again
-	for i := len(it.order) - 1; i >= 0 && !it.wedged; i-- {
-		x := it.ents[it.order[i]]
-		if x.e != nil && !x.exited {
-			x.e.Exit()
+	// hung: then nothing of that case is touched again.  The exits themselves run under the watchdog as well (an Exit can
+	// be the first call to meet a mutex that an earlier, recovered panic left locked).
+	if !it.wedged {
+		done := make(chan struct{})
+		order, ents := it.order, it.ents
+		go func() {
+			defer close(done)
+			for i := len(order) - 1; i >= 0; i-- {
+				x := ents[order[i]]
+				if x.e != nil && !x.exited {
+					x.e.Exit()
+				}
+			}
+		}()
+		select {
+		case <-done:
+		case <-time.After(hangAfter):
+			it.hungReset = true
 		}
 	}
 	it.wedged = false
@@ -414,6 +428,11 @@ func (it *Interp) soak(G, N int, R, seed uint64) string {
 func (it *Interp) Step(t []string, op string) string {
 	if it.wedged {
 		return "HANG"
+	}
+	if it.hungReset {
+		// a case whose ops all returned left something behind that blocks a plain Exit
+		it.hungReset = false
+		return "HANG-IN-CLEANUP-OF-PREVIOUS-CASE"
 	}
 	done := make(chan string, 1)
 	go func() {
